@@ -39,8 +39,21 @@ class BlockAlg(AbsInt):
             return ('blk', 'all')
         if base == 'S' and node.attr == 'loc':
             return 'S.loc'
-        if node.attr == 'T' and isinstance(base, tuple) and base and base[0] == 'S':
-            return ('S', base[2], base[1])
+        if node.attr == 'T':
+            return self.transpose(base)
+        return TOP
+
+    def transpose(self, v):
+        """Transpose of a block expression; the correlation matrix is symmetric, so block (i, j) transposed is block (j, i)."""
+        if isinstance(v, tuple) and v:
+            if v[0] == 'S':
+                return ('S', v[2], v[1])
+            if v[0] == 'inv':
+                t = self.transpose(v[1])
+                return ('inv', t) if t is not TOP else TOP
+            if v[0] == 'mm':
+                parts = [self.transpose(x) for x in reversed(v[1:])]
+                return TOP if any(x is TOP for x in parts) else ('mm',) + tuple(parts)
         return TOP
 
     def subscript(self, node, base, fr):
@@ -57,6 +70,8 @@ class BlockAlg(AbsInt):
                 return ('blk', 1)
         if meth in ('to_numpy', 'copy', 'astype'):
             return recv
+        if meth == 'transpose' and not node.args:
+            return self.transpose(recv)
         if meth == 'dot' and node.args:
             return self.mm(recv, self.value(node.args[0], fr))
         return None
@@ -190,6 +205,25 @@ def run(ctx, rep):
         and len(stmt_of(calls[0]).targets[0].elts) == 3
     if unpacked:
         rep.ok('D3.schur', ns, calls[0], 'the draw uses (means, covariance, columns) of the conditional distribution', construct='use of the conditional parameters')
+        # ... unchanged: neither the mean nor the covariance is re-bound to a transformed copy before the draw
+        u_st = stmt_of(calls[0])
+        mc = [e.id for e in u_st.targets[0].elts[:2] if isinstance(e, ast.Name)]
+        for a_ in walk_no_nested(ns.node):
+            if isinstance(a_, (ast.Assign, ast.AugAssign)) and a_ is not u_st and a_.lineno > u_st.lineno:
+                tgs = a_.targets if isinstance(a_, ast.Assign) else [a_.target]
+                hit = [t.id for t in tgs if isinstance(t, ast.Name) and t.id in mc]
+                sub = [t for t in tgs if isinstance(t, ast.Subscript) and isinstance(t.value, ast.Name) and t.value.id in mc]
+                if not hit and not sub:
+                    continue
+                which = 'mean' if (hit or [sub[0].value.id])[0] == mc[0] else 'covariance'
+                v_ = a_.value
+                changing = isinstance(a_, ast.AugAssign) or bool(sub) or isinstance(v_, ast.BinOp) or (isinstance(v_, ast.Call) and call_name(v_) in (
+                    'clip', 'abs', 'absolute', 'maximum', 'minimum', 'where', 'round', 'around', 'tril', 'triu', 'diag', 'nan_to_num', 'fill_diagonal', 'eye', 'identity'))
+                if changing:
+                    rep.bad('D3.schur', ns, a_, f'the conditional {which} is altered before the draw (`{short(a_, 70)}`): the sampled columns no longer follow the '
+                            'conditional normal law given the conditions', construct=f'conditional {which} reaches the draw unchanged')
+                else:
+                    rep.undecided('D3.schur', ns, a_, f'the conditional {which} is re-bound before the draw in a way that is not recognised', construct=f'conditional {which} reaches the draw unchanged')
     elif calls or deep:
         rep.undecided('D3.schur', ns, (calls or [ns.node.name])[0], 'the conditional parameters reach the draw through a helper or an unrecognised form',
                       construct='use of the conditional parameters')
